@@ -351,4 +351,61 @@ theorem C10_naming : Gen.astSuffix = ".ast.json" ∧ Gen.pageDir = ["template", 
 example : ((crun (CState.cold false [("a", some "A"), ("b", some "B")] ["a", "b"]) [0, 1, 0, 1, 0, 1]).threads.map (·.2))
     = [PC.done (.ok "A"), PC.done (.ok "B")] := by decide
 
+/-! ## the two loading functions, as the model was written against them
+
+`Gen.loadSkeleton` is the control skeleton of `Engine.LoadTemplates` and `Engine.compileDir` - every `if` condition, loop header,
+`defer`, `return`, `continue` and the place where the compiler state is constructed, with nesting depth, in source order -
+regenerated from pugjs/engine.go on every run. The loading model above (load once in production, reset of the loaded flag on a
+failed load, the string-prefix filter in the walk AND in the refresh of a filtered load, one compiler state per template file)
+mirrors exactly this skeleton; a changed condition, an added early return, a moved constructor reopens the obligation. -/
+
+def expectedLoadSkeleton : List (String × String) :=
+  [("LoadTemplates", "0 defer e.Unlock"),
+   ("LoadTemplates", "0 if !atomic.CompareAndSwapInt32(&e.templatesLoaded, 0, 1) && filtername == \"\""),
+   ("LoadTemplates", "1 return errors.New(\"Can not preload all templates again\")"),
+   ("LoadTemplates", "0 if err == nil"),
+   ("LoadTemplates", "0 if err != nil"),
+   ("LoadTemplates", "1 return err"),
+   ("LoadTemplates", "0 if filtername == \"\" || e.templates == nil"),
+   ("LoadTemplates", "0 else "),
+   ("LoadTemplates", "1 range e.templates"),
+   ("LoadTemplates", "2 if strings.HasPrefix(name, filtername)"),
+   ("LoadTemplates", "1 range templates"),
+   ("LoadTemplates", "0 if e.CheckWebpack1337"),
+   ("LoadTemplates", "1 if err == nil"),
+   ("LoadTemplates", "0 return nil"),
+   ("compileDir", "0 if err != nil"),
+   ("compileDir", "1 return nil, err"),
+   ("compileDir", "0 defer dir.Close"),
+   ("compileDir", "0 if err != nil"),
+   ("compileDir", "1 return nil, err"),
+   ("compileDir", "0 range filenames"),
+   ("compileDir", "1 if filename.IsDir()"),
+   ("compileDir", "2 if err != nil"),
+   ("compileDir", "3 return nil, err"),
+   ("compileDir", "2 range tpls"),
+   ("compileDir", "3 if result[k] == nil"),
+   ("compileDir", "1 else "),
+   ("compileDir", "2 if strings.HasSuffix(filename.Name(), \".ast.json\")"),
+   ("compileDir", "3 if filtername != \"\" && !strings.HasPrefix(name, filtername)"),
+   ("compileDir", "4 continue "),
+   ("compileDir", "3 new renderState"),
+   ("compileDir", "3 range e.FuncProvider()"),
+   ("compileDir", "3 if err != nil"),
+   ("compileDir", "4 return nil, err"),
+   ("compileDir", "3 if err != nil"),
+   ("compileDir", "4 return nil, err"),
+   ("compileDir", "0 return result, nil")]
+
+/-- **C10 (the model's tie to the loading code).** -/
+theorem C10_load_skeleton : Gen.loadSkeleton_ok = true ∧ Gen.loadSkeleton = expectedLoadSkeleton := by
+  constructor <;> decide
+
+/-- one compiler state (mixin registry, block counter, raw-mode flag) per template FILE: the only construction stands inside the
+loop over the directory's files, behind the suffix and filter tests (depth 3) -/
+theorem C10_state_per_template :
+    (Gen.loadSkeleton.filter fun r => r.2 == "3 new renderState" || r.2 == "0 new renderState" || r.2 == "1 new renderState" ||
+      r.2 == "2 new renderState" || r.2 == "4 new renderState") = [("compileDir", "3 new renderState")] := by
+  decide
+
 end Pug.Props.C10
